@@ -37,7 +37,11 @@ def render_class(name, c, names):
     if c.get("oc"):
         # a constructor that needs at least one argument (spelled in ways that look like a default constructor)
         L.append("public:")
-        L.append("  " + ["%s(int a, int b = 0);", "explicit %s(int a);", "%s(const char *s, ...);", "%s(int a, int b = 0, int c = 0);"][v] % name)
+        # ... or like a copy / move constructor (a further parameter without default: neither of them)
+        forms = ["%s(int a, int b = 0);", "explicit %s(int a);", "%s(const char *s, ...);", "%s(int a, int b = 0, int c = 0);",
+                 "%s(const {n} &o, int a, int b);", "%s({n} &&o, int a, int b = 0);", "template<class T> %s(const T &o, int a);"]
+        h = sum(ord(ch) for ch in name) % 7
+        L.append("  " + (forms[h if h >= 4 else v].replace("{n}", name)) % name)
     if c["mc"] != "none":
         L.append("public:")
         L.append("  %s(%s &&)%s" % (name, name, SUFFIX[c["mc"]]))
